@@ -370,11 +370,32 @@ func c19Index(kind string, n int) *embedding.Index {
 			idx.CmdEmbeddings = append(idx.CmdEmbeddings, []float32{1, 1})
 		}
 	case "no-commands":
+	case "overflow":
+		// all components finite, but the average of two query words overflows float32
+		idx.WordVectors["compress"] = []float32{3e38, 1, 0}
+		idx.WordVectors["files"] = []float32{3e38, 0, 1}
+		idx.WordVectors["git"] = []float32{-3e38, 3e38, 3e38}
+		for i := 0; i < n; i++ {
+			idx.CmdEmbeddings = append(idx.CmdEmbeddings, pool[i%len(pool)])
+		}
+	case "nan-row":
+		// what a damaged embeddings file can contain: NaN / Inf bit patterns in a command row
+		nan, inf := float32(math.NaN()), float32(math.Inf(1))
+		for i := 0; i < n; i++ {
+			switch i % 3 {
+			case 0:
+				idx.CmdEmbeddings = append(idx.CmdEmbeddings, []float32{nan, 0, 1})
+			case 1:
+				idx.CmdEmbeddings = append(idx.CmdEmbeddings, []float32{inf, 1, 0})
+			default:
+				idx.CmdEmbeddings = append(idx.CmdEmbeddings, pool[i%len(pool)])
+			}
+		}
 	}
 	return idx
 }
 
-var c19IndexKinds = []string{"full", "rotated", "short", "wrong-length", "no-commands"}
+var c19IndexKinds = []string{"full", "rotated", "short", "wrong-length", "no-commands", "overflow", "nan-row"}
 
 func c19SearchEval(c *lib.Ctx, db *database.Database, cs c19Search) (*lib.Violation, string) {
 	q, _ := strconv.Unquote(cs.Query)
@@ -492,8 +513,8 @@ func init() {
 	lib.Subs["c19load"] = c19Child
 	lib.Register(&lib.Check{
 		ID: "C19", Level: "model_checking",
-		Rule:      "(loaders) every byte prefix (0..818 / 0..808 bytes) of a valid 2-word vector file and of a valid 2-command embedding file x header count {kept,0,1,2,3,65536,2^31,2^32-1}, + first word-length field {0,1,65535} at every prefix, + dimension {0,1,99,101,2^32-1} x counts at 5 prefixes: each loaded in a child process under a 1.5 GiB address-space cap; a case that kills the child is attributed exactly and the child restarted after it; oracle: (vectors, nil) or (nil, error), no panic, allocation <= 64 MB + 16 x file size. (cosine) all ordered pairs of the 400 vectors with 0..3 components over {0,1,-1,0.5,1e-30,3e38,-3e38}: exact symmetry, |cos|<=1, 0 for empty / zero / mismatched. (search) 40-entry + all subsets of <=3 of 8 pool entries x 58 queries x NLP on/off x 5 in-memory indexes (full, rotated, one short, wrong length, no command vectors) attached through the overlay setter: same result set, score in [without, (1+alpha) x without], list ordered; LoadEmbeddings without files is a no-op. non-trivial = rejected files + non-zero cosines + searches whose scores the semantic stage changed",
-		Assume:    []string{"the embedding index setter is an overlay accessor (" + accMode + ")", "in-memory vectors have Dimension components (the loaders guarantee it for files)", "non-finite components are not vectors"},
+		Rule:      "(loaders) every byte prefix (0..818 / 0..808 bytes) of a valid 2-word vector file and of a valid 2-command embedding file x header count {kept,0,1,2,3,65536,2^31,2^32-1}, + first word-length field {0,1,65535} at every prefix, + dimension {0,1,99,101,2^32-1} x counts at 5 prefixes: each loaded in a child process under a 1.5 GiB address-space cap; a case that kills the child is attributed exactly and the child restarted after it; oracle: (vectors, nil) or (nil, error), no panic, allocation <= 64 MB + 16 x file size. (cosine) all ordered pairs of the 400 vectors with 0..3 components over {0,1,-1,0.5,1e-30,3e38,-3e38}: exact symmetry, |cos|<=1, 0 for empty / zero / mismatched. (search) 40-entry + all subsets of <=3 of 8 pool entries x 58 queries x NLP on/off x 7 in-memory indexes (full, rotated, one short, wrong length, no command vectors, word vectors whose average overflows float32, command rows holding NaN / Inf as a damaged file can) attached through the overlay setter: same result set, score in [without, (1+alpha) x without], list ordered; LoadEmbeddings without files is a no-op. non-trivial = rejected files + non-zero cosines + searches whose scores the semantic stage changed",
+		Assume:    []string{"the embedding index setter is an overlay accessor (" + accMode + ")", "in-memory vectors have Dimension components (the loaders guarantee it for files)", "CosineSimilarity itself is checked on finite vectors only; the search stage is checked with NaN / Inf rows and overflowing sums as well"},
 		QuickSecs: 200, ThorSecs: 900,
 		Run: c19Run,
 		Replay: func(c *lib.Ctx, raw json.RawMessage) []lib.Violation {
